@@ -205,8 +205,8 @@ fn random_kind(r: &mut Rng, tier: Tier, index: u64) -> Kind {
             seam: r.chance(1, 3),
         },
         4 | 5 => Kind::Pulse { wire: r.usize(0, 255), bin: r.usize(0, 300), row: r.usize(0, 575), amp: *r.pick(&[80.0, 20.0, 300.0]) },
-        7 if r.chance(1, 2) => Kind::RealHits { run: *r.pick(&[11084u32, 11192, 12000, 9277, 10418, 7026]), pattern: r.below(22) as u8, n: *r.pick(&[1usize, 13, 40, 256]) },
-        6 | 7 => Kind::Hits { pattern: r.below(23) as u8, n: if tier == Tier::Thorough && r.chance(1, 20) { *r.pick(&[600usize, 1000, 2000]) } else { *r.pick(&[1usize, 2, 12, 13, 14, 30, 60, 256]) } },
+        7 if r.chance(1, 2) => Kind::RealHits { run: *r.pick(&[11084u32, 11192, 12000, 9277, 10418, 7026]), pattern: r.below(23) as u8, n: *r.pick(&[1usize, 13, 40, 256]) },
+        6 | 7 => Kind::Hits { pattern: r.below(24) as u8, n: if tier == Tier::Thorough && r.chance(1, 20) { *r.pick(&[600usize, 1000, 2000]) } else { *r.pick(&[1usize, 2, 12, 13, 14, 30, 60, 256]) } },
         8 => Kind::Random { n: r.usize(0, 12) },
         _ => Kind::EvFault {
             base: BaseEvent { run: *r.pick(&[u32::MAX, 11084, 9277, 0]), seed: r.next_u64(), n_wires: r.usize(1, 30), n_pad_msgs: r.usize(0, 3), long_only: r.chance(1, 2), pad_start: None, suppressed_only: false },
@@ -545,9 +545,11 @@ fn kind_banks_hits(r: &mut Rng, pattern: u8, n: usize, run: Option<u32>) -> (u32
                     _ => Av { wire: r.usize(0, 255), bin: r.usize(0, 280), z: r.f64_range(-1.15, 1.15), wire_amp: r.f64_range(5.0, 300.0), pad_amp: r.f64_range(50.0, 2500.0) },
                 });
             }
-            if pattern == 21 {
-                // isochronous hits in one pad column (see fwd::isochronous_column), n = scale knob
-                let sig = fwd::isochronous_column(w0 / 8, (((z0 + 1.152) / 0.004) as usize).min(550), 20 + (r.usize(0, 250)), *r.pick(&[1.0, 1.0, 0.5, 2.0]));
+            if pattern == 21 || pattern == 22 {
+                // isochronous hits in one pad column (see fwd::isochronous_column): 8 pad peaks (17
+                // rows) or, pattern 22, 9-14 pad peaks - more pad hits than the column has wires
+                let n_rows = if pattern == 21 { 17 } else { *r.pick(&[19usize, 21, 25, 29]) };
+                let sig = fwd::isochronous_column(w0 / 8, (((z0 + 1.152) / 0.004) as usize).min(540), 20 + (r.usize(0, 250)), *r.pick(&[1.0, 1.0, 0.5, 2.0]), n_rows);
                 let run = run.unwrap_or(fwd::SIM_RUN);
                 return (run, fwd::banks_of_run(&sig, run, r.next_u32(), 0.0, r.next_u64(), 30000));
             }
